@@ -56,7 +56,8 @@ CFG = {
         dict(test="^TestC10Deterministic$", checks=(400, 20000)),
         dict(test="^TestC10Concurrent$", checks=(60, 3000)),
         dict(test="^TestC10Boundary$", checks=(60, 3000)),
-        dict(test="^TestC10Constructors$", checks=(1, 1))]),
+        dict(test="^TestC10Constructors$", checks=(1, 1)),
+        dict(test="^TestC10MemoryKinds$", checks=(60, 3000))]),
     "C11": dict(pkg="core", test="^TestC11$", shards=(8, 16), checks=(2500, 60000)),
     "C12": dict(pkg="total", test="^TestC12$", shards=(8, 16), checks=(45000, 1500000),
                 fuzz=dict(pkg="total", target="^FuzzTotal$", seconds=(0, 300))),
@@ -65,7 +66,8 @@ CFG = {
         dict(test="^TestC14Enum$", checks=(2, 40)),
         dict(test="^TestC14Step$", checks=(1000, 20000)),
         dict(test="^TestC14Soup$", checks=(20000, 1000000)),
-        dict(test="^TestC14Pending$", checks=(200, 20000))]),
+        dict(test="^TestC14Pending$", checks=(200, 20000)),
+        dict(test="^TestC14ShortMemory$", checks=(1, 1))]),
     "C15": dict(pkg="core", test="^TestC15$", shards=(4, 16), checks=(20000, 400000)),
     "C16": dict(pkg="core", test="^TestC16$", shards=(1, 1), checks=(1, 1)),
     "C17": dict(pkg="zexchk", test="^TestC17$", shards=(1, 1), checks=(1, 1)),
